@@ -105,6 +105,16 @@ theorem C03_app_slots_witness :
 /-! ## the application-level slot finder -/
 
 open RPVerif.NodeList in
+/-- **a release clears the refusal**: `find_slots` remembers the last request it had to refuse and refuses anything not
+    larger at once; every release - of however few slots - forgets it, so after a release a request is judged against
+    what is free now: the answer is the one the search gives, never the remembered refusal -/
+theorem C03_nodelist_release_clears_refusal (l : NL) (slots : List ASlot) (rr : RR) (n : Nat) :
+    (releaseSlots l slots).lastFailed = none ∧ cacheHit (releaseSlots l slots) rr n = false := by
+  constructor
+  · rfl
+  · simp [cacheHit, releaseSlots]
+
+open RPVerif.NodeList in
 /-- **releases from several application threads**: with the code as it is (`Gen.deallocInLock`: `deallocate_slot`
     changes the node inside its lock; `Gen.findSlotBooksInLock`), any interleaving of the threads' requests and
     releases on a node leaves the node the same operations leave one after the other, in the order the lock let them
